@@ -1,6 +1,7 @@
 //! Correspondence harness: executes request lines against the real `urandom` crate built from
 //! /repo's working tree.  `uharness run` reads one request per line on stdin and prints one
 //! result line per request (`panic` if the call panicked, `bad-request` if unparsable).
+mod chacha;
 mod distr;
 mod enumr;
 mod mockutil;
@@ -27,6 +28,8 @@ fn dispatch(req: &Req) -> R<String> {
 		"bern" => distr::bern(req),
 		"std" => distr::std(req),
 		"enum" => enumr::enumerate(req),
+		"chacha" => chacha::chacha(req),
+		"slpblock" => chacha::slpblock(req),
 		_ => Err(Bad),
 	}
 }
